@@ -129,6 +129,24 @@ def Cache.put (c : Cache) (cid : Nat) (ikey : List Char) (rc : RC) (expires : Na
   let es := c.entries.filter (fun x => !x.hasKey cid ikey) ++ [⟨cid, ikey, expires, rc⟩]
   { c with entries := es.drop (es.length - c.cap) }
 
+/-- one call of a cache method.  Each is a single critical section (`Gen.C14.entriesOnlyUnderLock`), so whatever the
+    threads of a worker do, the cache goes through a *sequence* of these -/
+inductive CacheOp where
+  | get (cid : Nat) (ikey : List Char) (now : Nat) (refresh : Option Nat)
+  | put (cid : Nat) (ikey : List Char) (rc : RC) (expires : Nat)
+deriving DecidableEq, Repr
+
+/-- run a sequence of cache calls; the log pairs every call with what it returned (`put` returns `None`) -/
+def applyOps : Cache → List CacheOp → Cache × List (CacheOp × Option RC)
+  | c, [] => (c, [])
+  | c, .get cid k now rf :: rest =>
+    let r := c.get cid k now rf
+    let t := applyOps r.1 rest
+    (t.1, (.get cid k now rf, r.2) :: t.2)
+  | c, .put cid k rc x :: rest =>
+    let t := applyOps (c.put cid k rc x) rest
+    (t.1, (.put cid k rc x, none) :: t.2)
+
 /-- `(anchor) + self._ttl` in ticks; `anchor` per call site (`_call_cache_birth`) -/
 def expiry (cfg : Cfg) (a : Anchor) (now created : Nat) : Nat :=
   (match a with
